@@ -111,6 +111,12 @@ class View:
                 else:
                     cands = set(val) if cands is None else (cands & set(val))
         if cands is not None:
+            # … and what a later comparison or `_ =>` arm on the same path excludes is gone from the arm's patterns (`A | B` then `≠ A` is B)
+            for a, val in self.s.atoms:
+                if a[0] == kind_eq and val is False:
+                    cands = cands - {ord(a[1])}
+                elif a[0] == kind_sw and val == "otherwise":
+                    cands = cands - set(a[1])
             if ord(ch) not in cands:
                 return False
             if len(cands) == 1:
